@@ -100,6 +100,46 @@ MUTATIONS = [
     ("tlexport/main.py", "        if len(packet_payload) < 6:", "        if len(packet_payload) < 5:", "handle_quic_packet: 5-byte long header read"),
     ("tlexport/output_builder.py", "        self.default_port = 8080", "        self.default_port = 8081", "OutputBuilder: fallback port"),
     ("tlexport/quic/quic_output_builder.py", "        if keep_original_ports is False:", "        if keep_original_ports is True:", "QUICOutputbuilder: flag inverted"),
+    # group QuicSess2: quic_session.py packet path
+    ("tlexport/quic/quic_session.py", '            self.set_largest_packet_number(quic_packet, packet_number)\n\n            frames = parse_frames(payload, quic_packet)\n', '            frames = parse_frames(payload, quic_packet)\n            self.set_largest_packet_number(quic_packet, packet_number)\n', 'decrypt_packet: largest packet number stored only after parse_frames'),
+    ("tlexport/quic/quic_session.py", '            packet_number = self.get_full_packet_number(quic_packet)\n', '            packet_number = self.get_full_packet_number(quic_packet)\n            self.set_largest_packet_number(quic_packet, packet_number)\n', 'decrypt_packet: largest packet number stored before the AEAD check'),
+    ("tlexport/quic/quic_session.py", '                    decryptor = self.decryptors["Application"][self.epoch_server]', '                    decryptor = self.decryptors["Application"][self.epoch_client]', 'decrypt_packet: server packets use the client epoch'),
+    ("tlexport/quic/quic_session.py", '                        decryptor = self.decryptors["Handshake"]', '                        decryptor = self.decryptors["Initial"]', 'decrypt_packet: Handshake packets use the Initial decryptor'),
+    ("tlexport/quic/quic_session.py", ' + quic_packet.token_len_bytes + quic_packet.token + ', ' + quic_packet.token_len_bytes + ', 'decrypt_packet: token missing from the Initial associated data'),
+    ("tlexport/quic/quic_session.py", 'associated_data = quic_packet.first_byte + quic_packet.dcid + quic_packet.packet_num', 'associated_data = quic_packet.first_byte + quic_packet.packet_num + quic_packet.dcid', 'decrypt_packet: short-header associated data in the wrong order'),
+    ("tlexport/quic/quic_session.py", '                if quic_packet.packet_type == QuicPacketType.RTT_1:\n                    self.check_key_epoch', '                if quic_packet.packet_type == QuicPacketType.RTT_O:\n                    self.check_key_epoch', 'decrypt_packet: key epoch never checked for 1-RTT'),
+    ("tlexport/quic/quic_session.py", '        except Exception as e:\n            print(e)', '        except KeyError as e:\n            print(e)', 'decrypt_packet: only KeyError swallowed'),
+    ("tlexport/quic/quic_session.py", '                if isserver:\n                    self.server_cids.add(frame.connection_id)', '                if not isserver:\n                    self.server_cids.add(frame.connection_id)', 'handle_frame: NEW_CONNECTION_ID credited to the wrong side'),
+    ("tlexport/quic/quic_session.py", '            case StreamFrame():\n                self.output_buffer.append(frame)', '            case StreamFrame():\n                pass', 'handle_frame: STREAM frames not exported'),
+    ("tlexport/quic/quic_session.py", '            if quic_packet.packet_type not in [QuicPacketType.RETRY, QuicPacketType.VERSION_NEG]:', '            if quic_packet.packet_type not in [QuicPacketType.RETRY]:', 'QuicSession.handle_quic_packet: Version Negotiation packets sent to decrypt_packet'),
+    ("tlexport/quic/quic_session.py", '                    self.server_cids.add(quic_packet.scid)\n                    self.client_cids.add(quic_packet.dcid)', '                    self.client_cids.add(quic_packet.scid)\n                    self.server_cids.add(quic_packet.dcid)', 'QuicSession.handle_quic_packet: CIDs of a server Initial swapped'),
+    ("tlexport/quic/quic_session.py", '                self.decryptors = {}\n                self.keys: dict[str, bytes] = {}\n\n                self.hash_fun = None', '                self.keys: dict[str, bytes] = {}\n\n                self.hash_fun = None', 'QuicSession.handle_quic_packet: decryptors kept across a Retry'),
+    ("tlexport/quic/quic_session.py", '            if self.tls_session.client_random is not None and self.tls_session.ciphersuite is not None:', '            if self.tls_session.client_random is not None or self.tls_session.ciphersuite is not None:', 'handle_crypto_frame: key derivation with one of client random / suite missing'),
+    ("tlexport/quic/quic_session.py", '            self.set_initial_decryptor(dcid, False)', '            self.set_initial_decryptor(dcid, True)', 'QuicSession.handle_packet: Initial keys derived for ChaCha20'),
+    ("tlexport/quic/quic_session.py", '        if self.quic_version == QuicVersion.UNKNOWN:\n            self.quic_version = quic_version', '        if self.quic_version != QuicVersion.UNKNOWN:\n            self.quic_version = quic_version', 'QuicSession.handle_packet: version latch inverted'),
+    # group Main2: main.py
+    ("tlexport/main.py", '        if session.matches_session(packet):\n            session.handle_packet(packet)\n            return\n', '        if session.matches_session(packet):\n            session.handle_packet(packet)\n', 'main.handle_packet: every matching session gets the packet'),
+    ("tlexport/main.py", '    if packet.dport in server_ports or packet.sport in server_ports:\n        sessions.append(', '    if packet.dport in server_ports and packet.sport in server_ports:\n        sessions.append(', 'main.handle_packet: new session only when both ports are server ports'),
+    ("tlexport/main.py", '        sessions.append(Session(packet, server_ports, keylog, portmap, keep_original_ports, exp_meta))', '        sessions.insert(0, Session(packet, server_ports, keylog, portmap, keep_original_ports, exp_meta))', 'main.handle_packet: new session put first'),
+    ("tlexport/main.py", '    for session in sessions:\n        all_decrypted_sessions.extend(session.decrypt())\n    for quic_session in quic_sessions:\n        all_decrypted_sessions.extend(quic_session.build_output(metadata))', '    for quic_session in quic_sessions:\n        all_decrypted_sessions.extend(quic_session.build_output(metadata))\n    for session in sessions:\n        all_decrypted_sessions.extend(session.decrypt())', 'main.collect: QUIC sessions exported before the TLS sessions'),
+    ("tlexport/main.py", '        all_decrypted_sessions.extend(quic_session.build_output(metadata))', '        all_decrypted_sessions.extend(quic_session.build_output(False))', 'main.collect: metadata flag not passed on'),
+    ("tlexport/main.py", '        if ts == -1:\n            keylog.extend(', '        if ts == 0:\n            keylog.extend(', 'main.run_dsb: secrets block recognised by ts == 0'),
+    ("tlexport/main.py", '    if args.sslkeylog is not None:\n', '    if args.sslkeylog is None:\n', 'main.run_keylog_file: key-log file read when absent'),
+    ("tlexport/main.py", '            if len(dcid) > 0 and (dcid in session.client_cids or dcid in session.server_cids):\n                session.handle_packet(packet, dcid, quic_version)\n                return\n', '            if len(dcid) > 0 and (dcid in session.client_cids or dcid in session.server_cids):\n                session.handle_packet(packet, dcid, quic_version)\n', 'main.quic_loop: long-header CID match does not end the loop'),
+    ("tlexport/main.py", '                    session.handle_packet(packet, cid, quic_version)\n                    return\n', '                    session.handle_packet(packet, dcid, quic_version)\n                    return\n', 'main.quic_loop: short-header match hands on the empty DCID'),
+    ("tlexport/main.py", '        if session.matches_session_dgram(packet.ip_src, packet.ip_dst, packet.sport, packet.dport):\n            session.handle_packet(packet, dcid, quic_version)\n            return\n', '        if session.matches_session_dgram(packet.ip_src, packet.ip_dst, packet.sport, packet.dport):\n            session.handle_packet(packet, dcid, quic_version)\n            continue\n', 'main.quic_loop: 4-tuple match goes on to the next session'),
+    ("tlexport/main.py", '        quic_sessions.append(new_session)\n        new_session.handle_packet(packet, dcid, quic_version)', '        quic_sessions.append(new_session)', 'main.quic_loop: first packet of a new session not processed'),
+    ("tlexport/main.py", '                    candidates = session.server_cids\n                else:\n                    candidates = session.client_cids', '                    candidates = session.client_cids\n                else:\n                    candidates = session.server_cids', 'main.quic_loop: sender-side CIDs as candidates (fragment)'),
+    # group Keylog: keylog_reader.py
+    ("tlexport/keylog_reader.py", '        self.client_random = split[1]\n        self.value = split[2]', '        self.client_random = split[2]\n        self.value = split[1]', 'Key: client random and value swapped'),
+    ("tlexport/keylog_reader.py", '        split = key_line.split(" ")', '        split = key_line.split("\\t")', 'Key: line split at tabs'),
+    ("tlexport/keylog_reader.py", '    key_str = key_str.replace("\\r", "")\n', '', 'get_keys_from_string: carriage returns kept'),
+    ("tlexport/keylog_reader.py", '        if key is not None:\n            keys.append(key)', '        if key is not None:\n            keys.insert(0, key)', 'get_keys_from_string: keys in reverse order'),
+    ("tlexport/keylog_reader.py", '    if res is not None:\n        return Key(line)', '    if res is None:\n        return Key(line)', 'get_key_from_line: the lines that do NOT match'),
+    ("tlexport/quic/quic_session.py", '            keys["server_initial_key"],\n            keys["server_initial_iv"],\n            keys["client_initial_key"],', '            keys["client_initial_key"],\n            keys["server_initial_iv"],\n            keys["server_initial_key"],', 'set_initial_decryptor: server and client keys swapped'),
+    ("tlexport/quic/quic_session.py", '        dec = QuicDecryptor(dec_keys, AESGCM, early=False)', '        dec = QuicDecryptor(dec_keys, AESGCM, early=True)', 'set_initial_decryptor: Initial decryptor built as an early-data decryptor'),
+    ("tlexport/quic/quic_session.py", '        if keys is None:\n            self.can_decrypt = False\n            return\n\n        dec_keys', '        if keys is None:\n            return\n\n        dec_keys', 'set_initial_decryptor: can_decrypt kept when no keys'),
+    ("tlexport/main.py", '    for buf, ts in all_decrypted_sessions:\n        writer.writepkt(bytes(buf), ts)', '    for buf, ts in reversed(all_decrypted_sessions):\n        writer.writepkt(bytes(buf), ts)', 'main.write_all: frames written in reverse order'),
     # group QuicTls: quic_tls_parser.py
     ("tlexport/quic/quic_tls_parser.py", "            if p_type == 0x2ab2:", "            if p_type == 0x2ab3:", "get_quic_transport_parameters: grease_quic_bit under the wrong id"),
     ("tlexport/quic/quic_tls_parser.py", "            extension_body = extension_body[index + parameter_length:]", "            extension_body = extension_body[index + parameter_length + 1:]", "get_quic_transport_parameters: a byte skipped after each parameter"),
@@ -197,6 +237,10 @@ MUTATIONS = [
 
 # behaviour-preserving rewrites: (file, [(old, new)…], what)
 REWRITES = [
+    ("tlexport/keylog_reader.py", [('    for line in lines:\n        key = get_key_from_line(line)\n        if key is not None:\n            keys.append(key)', '    for line in lines:\n        key = get_key_from_line(line)\n        if key is None:\n            continue\n        keys.append(key)')], 'get_keys_from_string: `continue` on a line that is no key'),
+    ("tlexport/main.py", [('    if packet.dport in server_ports or packet.sport in server_ports:\n        sessions.append(', '    if packet.sport in server_ports or packet.dport in server_ports:\n        sessions.append(')], 'main.handle_packet: port tests swapped'),
+    ("tlexport/quic/quic_session.py", [('                if isserver:\n                    self.server_cids.add(frame.connection_id)\n                else:\n                    self.client_cids.add(frame.connection_id)', '                if not isserver:\n                    self.client_cids.add(frame.connection_id)\n                else:\n                    self.server_cids.add(frame.connection_id)')], 'handle_frame: NEW_CONNECTION_ID branches swapped under `not`'),
+    ("tlexport/quic/quic_session.py", [('                    case QuicPacketType.HANDSHAKE | QuicPacketType.RTT_O:', '                    case QuicPacketType.RTT_O | QuicPacketType.HANDSHAKE:')], 'decrypt_packet: `HANDSHAKE | RTT_O` written `RTT_O | HANDSHAKE`'),
     ("tlexport/quic/quic_dissector.py", [("                pn_offset = 1 + len(guessed_dcid)\n                sample_offset = pn_offset + 4\n                sample = datagram_data[sample_offset:sample_offset + 16]\n",
                                           "                pn_offset = len(guessed_dcid) + 1\n                sample = datagram_data[pn_offset + 4:pn_offset + 4 + 16]\n")],
      "extract_quic_packet: short-header sample offset inlined"),
@@ -266,6 +310,12 @@ def group_of(what):
     if fn in ("Dec.byte_xor", "get_cipher_type", "update_keys", "decrypt_tls13_aead", "decrypt_tls13_stream_cipher", "decrypt_tls12_aead",
               "decrypt_tls12_chacha20", "Decryptor.decrypt"):
         return ["Decrypt"]
+    if fn in ("Key", "get_key_from_line", "get_keys_from_string"):
+        return ["Keylog"]
+    if fn.startswith("main."):
+        return ["Demux", "Main2"] if "(fragment)" in what else ["Main2"]
+    if fn in ("decrypt_packet", "handle_frame", "QuicSession.handle_quic_packet", "handle_crypto_frame", "QuicSession.handle_packet", "set_initial_decryptor"):
+        return ["QuicSess2"]
     if fn in ("get_quic_transport_parameters", "get_extensions", "handle_client_hello", "handle_server_hello", "handle_encrypted_extensions", "handle_record"):
         return ["QuicTls"]
     if fn in ("extract_server_frame", "extract_client_frame"):
@@ -273,7 +323,8 @@ def group_of(what):
     if fn in ("extract_server_buf", "extract_client_buf") and "next_seq" in what:
         return ["Reasm", "Reasm2"]
     if fn == "handle_quic_packet":
-        return ["QuicDissect"] if "long header read" in what else ["Demux"]
+        # (the session loop is translated twice: its tests as fragments in Demux, the loop as a whole in Main2)
+        return ["QuicDissect"] if "long header read" in what else ["Demux", "Main2"]
     return table[fn]
 
 
